@@ -18,4 +18,10 @@ def contracts():
     for layout in ("dense", "isotropic", "blockdiag"):
         c = ivp.Cfg(layout, "dynamic", "filter", "ts0", q=1, d=1)
         out += [interp.interpolate_fwd_contract(c), interp.interpolate_at_t1_contract(c)]
+    # premise of the equivariance lemma (base scale c enters only through Q -> c^2 Q): the process noise of every
+    # prior, built by the real constructors, is linear in the base scale and in the calibrated scale (shared with C09)
+    from contracts import exp_priors, gaussians, priors
+
+    out += [priors.transition_contract(L) for L in gaussians.LAYOUTS]
+    out += [exp_priors.transition_contract(kind, diffuse=df) for kind in ("general", "ou", "matern") for df in (0, 1)]
     return out
